@@ -108,6 +108,26 @@ func cmdSeq(args []string) int {
 		}
 	}
 	sf.Close()
+	// implementation-level streams (steered scripts only), one batch file for TraceStore.tla
+	implf, _ := os.Create(join(*out, "impl.ndjson"))
+	ienc := json.NewEncoder(implf)
+	var implOffsets []int
+	var implIdx []int
+	iline := 0
+	for i := range scripts {
+		if len(results[i].Impl) == 0 {
+			continue
+		}
+		implOffsets = append(implOffsets, iline+1)
+		implIdx = append(implIdx, i)
+		_ = ienc.Encode(ImplEvent{Ev: "reset"})
+		iline++
+		for _, e := range results[i].Impl {
+			_ = ienc.Encode(e)
+			iline++
+		}
+	}
+	implf.Close()
 	if err := w.Close(); err != nil {
 		fmt.Fprintln(os.Stderr, err)
 		return 2
@@ -115,6 +135,7 @@ func cmdSeq(args []string) int {
 	writeJSON(join(*out, "summary.json"), map[string]any{
 		"traces": w.Traces, "events": w.Events, "offsets": w.Offsets,
 		"workers": 4, "keys": maxKeys, "results": results,
+		"impl_offsets": implOffsets, "impl_scripts": implIdx, "impl_events": iline,
 	})
 	return 0
 }
